@@ -9,6 +9,10 @@ for f in sorted(glob.glob("/tmp/mut/results8/C*-*.json")):
     tag = os.path.basename(f)[:-5]
     pid, n = tag.split("-")
     first = json.load(open(f))
+    fa = f"/tmp/mut/results8all/{tag}.json"  # the first-evaluation misses, re-run against the other checks of the frozen framework
+    if os.path.exists(fa):
+        extra = json.load(open(fa)).get("checks", {})
+        first.setdefault("checks", {}).update({c: v for c, v in extra.items() if c not in first.get("checks", {})})
     fb = f"/tmp/mut/results8b/{tag}.json"
     final = json.load(open(fb)) if os.path.exists(fb) else first
     r = dict(final)
